@@ -25,6 +25,12 @@ def boot(extra_conf=''):
         os.makedirs(os.path.join(d, sub), exist_ok=True)
     if REPO not in sys.path:
         sys.path.insert(0, REPO)
+    # the package is also installed (editable, pointing at /repo): whatever was imported before boot(), or is imported
+    # by it, must come from the tree under check
+    stale = [m for m, mod in list(sys.modules.items()) if (m == 'supybot' or m.startswith('supybot.'))
+             and getattr(mod, '__file__', None) and not os.path.realpath(mod.__file__).startswith(os.path.realpath(REPO) + os.sep)]
+    if stale:
+        raise RuntimeError('supybot modules imported from outside %s before boot(): %s' % (REPO, stale[:5]))
     os.environ['LIMNORIA_VERIF'] = '1'
     fn = os.path.join(d, 'conf', 'verif.conf')
     with open(fn, 'w') as f:
@@ -47,6 +53,8 @@ supybot.databases.users.allowUnregistration: True
 %(extra)s
 """ % {'d': d, 'extra': extra_conf})
     import supybot.registry as registry
+    if not os.path.realpath(registry.__file__).startswith(os.path.realpath(REPO) + os.sep):
+        raise RuntimeError('supybot imported from %s, not from the tree under check %s' % (registry.__file__, REPO))
     registry.open_registry(fn)
     import supybot.log as log
     import supybot.conf as conf
